@@ -39,6 +39,11 @@ template <class T> static void run_T(Choice &c, Ctx &cx)
     apply_opts(o, e.so); apply_ilu(io, e.so); e.so.IterRefine = NOREFINE;
     if (o.colperm == MY_PERMC) e.perm_c = o.my_perm_c;
     e.ilu = true;
+    // A quarter of the cases factor inside a generous caller workspace (the re-use step then re-uses it): the four growable arrays
+    // sit back to back there, so a growth of one moves the others, and every guarantee of the property must survive that.
+    std::vector<char> wsbuf;
+    if (((cx.hash >> 9) & 3) == 0) { wsbuf.assign(((size_t)1 << 20) + 8, (char)0x5A); e.work = wsbuf.data() + (((cx.hash >> 11) & 1) ? 4 : 0); e.lwork = (int_t)1 << 20; cx.label("caller-workspace"); }
+    if (cx.is_known("F-MC64") && mc64_breaks_on(e)) { cx.exclude("F-MC64"); cx.label("F-MC64:not-a-bijection(direct ldperm call on the driver's input)"); vf_purge(); return; }
     e.bind();
     bool aborted = e.call();
     if (aborted) {
@@ -48,6 +53,7 @@ template <class T> static void run_T(Choice &c, Ctx &cx)
     }
     long long info = e.info;
     auto bail = [&] { e.teardown(); vf_purge(); };
+    if (e.lwork > 0 && info > n + 1) { e.lu_live = false; bail(); cx.skip("the 1 MB caller workspace did not suffice (shortages are judged by C08)"); return; }
     if (info < 0 || info > n + 1 || (info == n + 1 && !o.condnum)) { e.lu_live = false; bail(); VF_FAIL(cx, "info", "structurally nonsingular matrix: gsisx returned info=%lld (n=%d, ConditionNumber=%d)", info, n, (int)o.condnum); }
     if (!bytes_equal(e.S.idx, idx0) || !bytes_equal(e.S.ptr, ptr0)) { bail(); VF_FAIL(cx, "row-indices", "the caller's matrix is not returned with its original row indices / pointers"); }
     char eq = e.equed[0];
@@ -146,11 +152,13 @@ template <class T> static void run_T(Choice &c, Ctx &cx)
         e.B = gen_rhs<T>(c, n, nrhs, ldb, cplx); std::vector<T> B1 = e.B;
         e.X.assign(e.X.size(), sentinel_value<T>());
         e.so.Fact = SamePattern_SameRowPerm;
+        if (cx.is_known("F-MC64") && mc64_breaks_on(e)) { cx.exclude("F-MC64"); cx.label("F-MC64:not-a-bijection(direct ldperm call on the driver's input, re-use step)"); e.S.val = val0; e.bind(); bail(); return; }
         e.bind();
         if (e.call()) { cx.fail("abort", "gsisx(SamePattern_SameRowPerm): library called ABORT/exit: " + std::string(vf_abort_msg())); vf_purge(); return; }
         long long info2 = e.info; reused = true;
+        if (e.lwork > 0 && info2 > n + 1) { bail(); cx.skip("the 1 MB caller workspace did not suffice in the re-use step (shortages are judged by C08)"); return; }
         if (info2 < 0 || info2 > n + 1) { e.lu_live = false; bail(); VF_FAIL(cx, "info", "re-use of the incomplete factors returned info=%lld", info2); }
-        if (!is_perm(e.perm_r.data(), n) || !is_perm(e.perm_c.data(), n)) { bail(); VF_FAIL(cx, "perm", "after re-use with SamePattern_SameRowPerm the permutations are not bijections"); }
+        if (!is_perm(e.perm_r.data(), n) || !is_perm(e.perm_c.data(), n)) { bail(); VF_FAIL(cx, "perm", "after re-use with SamePattern_SameRowPerm (info=%lld) the permutations are not bijections: perm_r=%s perm_c=%s", info2, vec_str(e.perm_r).c_str(), vec_str(e.perm_c).c_str()); }
         FactorShape fs2;
         if (!check_structure<T>(cx, &e.L, &e.U, n, n, true, fs2)) { cx.msg = "after re-use with SamePattern_SameRowPerm: " + cx.msg; bail(); return; }
         Dense<W> L2, U2; decode_factors<T>(&e.L, &e.U, L2, U2);
